@@ -18,6 +18,7 @@ COUNT = {"quick": 5000, "thorough": None}
 BUDGET = {"quick": 45, "thorough": 600}
 CHUNK = 4000
 RULE = (
+    '30% of the runs hand the step a validated configuration object from which a second configuration with uniform<->truncnorm exchanged is derived and asked for one gradient afterwards. '
     "scripted runs with 1-5 gradient requests; 1-3 samplers of methods uniform/norm/truncnorm/sobol/halton/lhs (method "
     "cycles with the index so all are covered), shared on/off, masks, per-variable sampler assignment (incl. samplers "
     "left without variables), 1-6 realizations, 1-6 perturbations, 1-5 variables, seeds. Non-trivial = at least one "
